@@ -346,7 +346,7 @@ func (g *Gen) havocAllExcept(st *State, preserve []string) {
 	old := st.ac
 	st.ac = g.fresh("ac", "Int")
 	g.assume(st, "(<= "+old+" "+st.ac+")")
-	g.noteWriteAll()
+	g.noteWriteAll(preserve...)
 }
 
 func (g *Gen) applyCalleeSpec(st *State, cs *CalleeSpec, c *ssa.CallCommon, recv Val, args []Val, rt types.Type) Val {
